@@ -60,6 +60,7 @@ Record rstate := {
   r_tcs : tcs;
   r_dflt : N;
   r_memo : option N;                       (* what the proxy object remembers (memo variant only) *)
+  r_held : option (N * N * N * N);         (* a detection in flight: (toolchain, src, identity taken at its start, mtime read at its start) *)
   r_comps : list (rkey * rentry);
   r_results : list (N * N) }.
 
@@ -67,9 +68,13 @@ Inductive rop :=
 | RDefault (t : N)                          (* rustup default / override / rust-toolchain edit *)
 | RInstall (t b m : N)                      (* (re)install toolchain t: its rustc is build b, mtime m *)
 | RReq (src : N)                            (* compile through the proxy *)
-| RReqDirect (t src : N).                   (* compile through toolchain t's own rustc *)
+| RReqDirect (t src : N)                    (* compile through toolchain t's own rustc *)
+| RHoldBegin (t src : N)                    (* a request through toolchain t's rustc whose DETECTION starts now and is long:
+                                               the build in place names its sysroot (that fixes the identity), then the
+                                               libraries are hashed ... *)
+| RHoldEnd.                                 (* ... and now it is over: re-stat, memoise if unchanged, compile *)
 
-Inductive routcome := RUnsupported | RHit (producer : N) | RMiss (producer : N).
+Inductive routcome := RUnsupported | RPending | RHit (producer : N) | RMiss (producer : N).
 
 Record revent := {
   v_direct : option N;                       (* Some t = requested through toolchain t's rustc *)
@@ -79,6 +84,7 @@ Record revent := {
   v_used : option N;                         (* the toolchain the server resolved the request to *)
   v_id : option N;
   v_key : option N;
+  v_held : bool;                             (* the request overlapped its own long detection (RHoldBegin / RHoldEnd) *)
   v_out : routcome }.
 
 Fixpoint rrlookup (k : N) (r : list (N * N)) : option N :=
@@ -92,44 +98,61 @@ Section Proxy.
   Variable H : N -> N -> N.
 
   (* serve a request that the server resolved to toolchain `used`, requested through path `req` *)
+  Definition rset (s : rstate) (memo' : option N) (held' : option (N * N * N * N))
+             (comps' : list (rkey * rentry)) (res' : list (N * N)) : rstate :=
+    {| r_tcs := r_tcs s; r_dflt := r_dflt s; r_memo := memo'; r_held := held'; r_comps := comps';
+       r_results := res' |}.
+
+  (* serve a request that the server resolved to toolchain `used`, requested through path `req`;
+     forced = Some id: the identity is not the server's own finding but the one of a detection the
+     request joined (join variant only) *)
   Definition rserve (s : rstate) (memo' : option N) (direct : option N) (req used sel src : N)
-    : rstate * revent :=
+             (held : bool) (forced : option N) : rstate * revent :=
     let cur := tlookup sel (r_tcs s) in
     let ev used' id key out :=
       {| v_direct := direct; v_src := src; v_sel := sel; v_cur := cur; v_used := used';
-         v_id := id; v_key := key; v_out := out |} in
+         v_id := id; v_key := key; v_held := held; v_out := out |} in
     match tlookup used (r_tcs s) with
-    | None =>
-        ({| r_tcs := r_tcs s; r_dflt := r_dflt s; r_memo := memo'; r_comps := r_comps s;
-            r_results := r_results s |}, ev None None None RUnsupported)
+    | None => (rset s memo' (r_held s) (r_comps s) (r_results s), ev None None None RUnsupported)
     | Some (b, m) =>
         let k := (req, used) in
         let '(comps', id) :=
-          match elookup k (r_comps s) with
-          | Some e => if re_mtime e =? m then (r_comps s, re_id e)
-                      else ((k, {| re_exe := used; re_id := ident b; re_mtime := m |}) :: eremove k (r_comps s), ident b)
-          | None => ((k, {| re_exe := used; re_id := ident b; re_mtime := m |}) :: eremove k (r_comps s), ident b)
+          match forced with
+          | Some id0 => (r_comps s, id0)
+          | None =>
+              match elookup k (r_comps s) with
+              | Some e => if re_mtime e =? m then (r_comps s, re_id e)
+                          else ((k, {| re_exe := used; re_id := ident b; re_mtime := m |}) :: eremove k (r_comps s), ident b)
+              | None => ((k, {| re_exe := used; re_id := ident b; re_mtime := m |}) :: eremove k (r_comps s), ident b)
+              end
           end in
         let key := H id src in
         match rrlookup key (r_results s) with
         | Some prod =>
-            ({| r_tcs := r_tcs s; r_dflt := r_dflt s; r_memo := memo'; r_comps := comps';
-                r_results := r_results s |}, ev (Some used) (Some id) (Some key) (RHit prod))
+            (rset s memo' (r_held s) comps' (r_results s), ev (Some used) (Some id) (Some key) (RHit prod))
         | None =>
             (* the remembered executable is the resolved rustc = toolchain `used`: it compiles *)
-            ({| r_tcs := r_tcs s; r_dflt := r_dflt s; r_memo := memo'; r_comps := comps';
-                r_results := (key, b) :: r_results s |}, ev (Some used) (Some id) (Some key) (RMiss b))
+            (rset s memo' (r_held s) comps' ((key, b) :: r_results s), ev (Some used) (Some id) (Some key) (RMiss b))
         end
     end.
 
-  Definition rstep (memo : bool) (s : rstate) (o : rop) : rstate * option revent :=
+  (* does a request through toolchain t's rustc find a usable memo entry? *)
+  Definition memo_hit (s : rstate) (t : N) : bool :=
+    match tlookup t (r_tcs s), elookup (t, t) (r_comps s) with
+    | Some (_, m), Some e => re_mtime e =? m
+    | _, _ => false
+    end.
+
+  (* memo: the proxy remembers rustup's answer (seed class C12-7).  join: a request that misses the memo while a
+     detection for its key is in flight waits for it and takes ITS result (seed class C12-10). *)
+  Definition rstep (memo join : bool) (s : rstate) (o : rop) : rstate * option revent :=
     match o with
     | RDefault t =>
-        ({| r_tcs := r_tcs s; r_dflt := t; r_memo := r_memo s; r_comps := r_comps s;
+        ({| r_tcs := r_tcs s; r_dflt := t; r_memo := r_memo s; r_held := r_held s; r_comps := r_comps s;
             r_results := r_results s |}, None)
     | RInstall t b m =>
         ({| r_tcs := (t, (b, m)) :: tremove t (r_tcs s); r_dflt := r_dflt s; r_memo := r_memo s;
-            r_comps := r_comps s; r_results := r_results s |}, None)
+            r_held := r_held s; r_comps := r_comps s; r_results := r_results s |}, None)
     | RReq src =>
         let fresh := r_dflt s in
         let used :=
@@ -141,23 +164,78 @@ Section Proxy.
           else fresh in
         let memo' := if memo then (match tlookup used (r_tcs s) with Some _ => Some used | None => None end)
                      else None in
-        let '(s', e) := rserve s memo' None PROXY used fresh src in (s', Some e)
+        let '(s', e) := rserve s memo' None PROXY used fresh src false None in (s', Some e)
     | RReqDirect t src =>
-        let '(s', e) := rserve s (r_memo s) (Some t) t t t src in (s', Some e)
+        let forced :=
+          if join then
+            match r_held s with
+            | Some (t0, _, id0, _) => if (t0 =? t) && negb (memo_hit s t) then Some id0 else None
+            | None => None
+            end
+          else None in
+        let '(s', e) := rserve s (r_memo s) (Some t) t t t src false forced in (s', Some e)
+    | RHoldBegin t src =>
+        match r_held s, tlookup t (r_tcs s) with
+        | None, Some (b0, m0) =>
+            if memo_hit s t
+            then let '(s', e) := rserve s (r_memo s) (Some t) t t t src true None in (s', Some e)
+            else (rset s (r_memo s) (Some (t, src, ident b0, m0)) (r_comps s) (r_results s),
+                  Some {| v_direct := Some t; v_src := src; v_sel := t; v_cur := Some (b0, m0); v_used := Some t;
+                          v_id := Some (ident b0); v_key := None; v_held := true; v_out := RPending |})
+        | None, None =>
+            let '(s', e) := rserve s (r_memo s) (Some t) t t t src true None in (s', Some e)
+        | Some _, _ => (s, None)                 (* one long detection at a time *)
+        end
+    | RHoldEnd =>
+        match r_held s with
+        | None => (s, None)
+        | Some (t, src, id0, m0) =>
+            let k := (t, t) in
+            let cur := tlookup t (r_tcs s) in
+            (* the re-stat: memoise only if the rustc still has the mtime read before the detection *)
+            let comps' :=
+              match cur with
+              | Some (_, m1) => if m1 =? m0
+                                then (k, {| re_exe := t; re_id := id0; re_mtime := m0 |}) :: eremove k (r_comps s)
+                                else eremove k (r_comps s)
+              | None => eremove k (r_comps s)
+              end in
+            let key := H id0 src in
+            let ev out := {| v_direct := Some t; v_src := src; v_sel := t; v_cur := cur; v_used := Some t;
+                             v_id := Some id0; v_key := Some key; v_held := true; v_out := out |} in
+            match cur with
+            | None => (rset s (r_memo s) None comps' (r_results s), Some (ev RUnsupported))
+            | Some (b1, _) =>
+                match rrlookup key (r_results s) with
+                | Some prod => (rset s (r_memo s) None comps' (r_results s), Some (ev (RHit prod)))
+                | None => (rset s (r_memo s) None comps' ((key, b1) :: r_results s), Some (ev (RMiss b1)))
+                end
+            end
+        end
     end.
 
-  Fixpoint rexec (memo : bool) (s : rstate) (ops : list rop) : list revent :=
+  Fixpoint rexec (memo join : bool) (s : rstate) (ops : list rop) : list revent :=
     match ops with
     | [] => []
     | o :: r =>
-        match snd (rstep memo s o) with
-        | Some e => e :: rexec memo (fst (rstep memo s o)) r
-        | None => rexec memo (fst (rstep memo s o)) r
+        match snd (rstep memo join s o) with
+        | Some e => e :: rexec memo join (fst (rstep memo join s o)) r
+        | None => rexec memo join (fst (rstep memo join s o)) r
         end
     end.
 
   Definition rstart : rstate :=
-    {| r_tcs := []; r_dflt := 0; r_memo := None; r_comps := []; r_results := [] |}.
+    {| r_tcs := []; r_dflt := 0; r_memo := None; r_held := None; r_comps := []; r_results := [] |}.
+
+  (* the sources of requests with a long detection are not requested otherwise: such a request is keyed on the
+     build that was in place when its detection started and compiled by the one in place when it ended, and what
+     it leaves in the result cache is not covered by the property (it overlapped the change) *)
+  Definition held_srcs (ops : list rop) : list N :=
+    flat_map (fun o => match o with RHoldBegin _ s => [s] | _ => [] end) ops.
+  Definition plain_srcs (ops : list rop) : list N :=
+    flat_map (fun o => match o with RReq s => [s] | RReqDirect _ s => [s] | _ => [] end) ops.
+  Definition held_srcs_reserved (ops : list rop) : bool :=
+    forallb (fun s => negb (existsb (N.eqb s) (held_srcs ops))) (plain_srcs ops).
 
   (* premise: at one toolchain's rustc, the same mtime means the same build (over what requests saw) *)
   Definition ragree (a b : revent) : bool :=
@@ -168,7 +246,7 @@ Section Proxy.
   Definition rwf (evs : list revent) : bool := forallb (fun a => forallb (ragree a) evs) evs.
 
   Definition rserved (e : revent) : option N :=
-    match v_out e with RHit p => Some p | RMiss p => Some p | RUnsupported => None end.
+    match v_out e with RHit p => Some p | RMiss p => Some p | _ => None end.
 
   (* the request was resolved to the toolchain its path leads to now, keyed on that build's identity,
      and what it hands back was made by that build *)
@@ -185,7 +263,7 @@ Section Proxy.
   Definition builds_of (ops : list rop) : list N :=
     flat_map (fun o => match o with RInstall _ b _ => [b] | _ => [] end) ops.
   Definition rsrcs_of (ops : list rop) : list N :=
-    flat_map (fun o => match o with RReq s => [s] | RReqDirect _ s => [s] | _ => [] end) ops.
+    flat_map (fun o => match o with RReq s => [s] | RReqDirect _ s => [s] | RHoldBegin _ s => [s] | _ => [] end) ops.
   Definition rcollision_free (ops : list rop) : bool :=
     let B := builds_of ops in let S := rsrcs_of ops in
     forallb (fun b1 => forallb (fun b2 =>
